@@ -139,6 +139,9 @@ def main(run):
         for seed in range(run.seed * 100, run.seed * 100 + (1 if quick else 3)):
             for mode in ('none', 'private', 'shared', 'tworepos'):
                 traces += variant(run, g, seed, mode, quick)
+    # a cache made stale by ANOTHER client's delete, then the very same data is snapshotted again (private / shared / no cache)
+    from . import c02
+    traces += c02.stale_knowledge(run, ['shared', 'same'] if quick else list(rc.ALL_GRAPHS), range(run.seed * 10 + 5, run.seed * 10 + 5 + (1 if quick else 3)))
     rc.validate(run, traces, CLAUSES, label='c18.cache-variants')
     run.add(cache_fs_calls_under_rendezvous=GATE['calls'], cache_fs_calls_made_to_coincide=2 * GATE['pairs'])
     run.coverage['rule'] = ('a case is one evolving history on one key graph under one cache arrangement (none / private per user / shared between '
